@@ -1,2 +1,430 @@
+(* C09 — lemmas.  Part 1: the representation invariant and its preservation by every kernel. *)
 From V Require Import Common.NumFacts C09.Model C09.Dense.
-Lemma placeholder_true : True. Proof. exact I. Qed.
+From Coq Require Import Lia Lqa.
+
+(* ------------------------------------------------------------------ invariant *)
+Definition wfc (c : cell) : Prop := match c with Some q => ~ q == 0 | None => True end.
+Definition wf (c : cells) : Prop := Forall wfc c.
+Definition vwf (v : vec) : Prop := match v with VF c => wf c | VB _ => True end.
+Definition owf (o : obj) : Prop :=
+  match o with OV c _ => wf c | OA rows _ => Forall wf rows | _ => True end.
+Definition store_wf (s : store) : Prop := Forall owf s.
+Definition pwf (p : operand) : Prop :=
+  match p with PV c => wf c | PA rows => Forall wf rows | _ => True end.
+
+Lemma wfc_nz q : wfc (nz q).
+Proof. unfold nz. destruct (qzerob q) eqn:E; cbn; auto. now apply qzerob_false. Qed.
+Lemma dcell_nz q : dcell (nz q) == q.
+Proof. unfold nz. destruct (qzerob q) eqn:E; cbn; try reflexivity. apply qzerob_true in E. now rewrite E. Qed.
+Lemma qmul_nz a b : ~ a == 0 -> ~ b == 0 -> ~ a * b == 0.
+Proof. intros Ha Hb H. apply Qmult_integral in H. tauto. Qed.
+Lemma qinv_nz a : ~ a == 0 -> ~ / a == 0.
+Proof. intros Ha H. assert (K : a * / a == 1) by (apply Qmult_inv_r; exact Ha). rewrite H in K. lra. Qed.
+Lemma qdiv_nz a b : ~ a == 0 -> ~ b == 0 -> ~ a / b == 0.
+Proof. intros Ha Hb. unfold Qdiv. apply qmul_nz; auto. now apply qinv_nz. Qed.
+Lemma qopp_nz a : ~ a == 0 -> ~ - a == 0.
+Proof. intros Ha H. apply Ha. lra. Qed.
+Lemma qabs_nz a : ~ a == 0 -> ~ Qabs a == 0.
+Proof.
+  intros Ha H. apply Ha. destruct (Qlt_le_dec a 0) as [L|L].
+  - rewrite Qabs_neg in H by lra. lra.
+  - rewrite Qabs_pos in H by lra. exact H.
+Qed.
+
+Lemma wf_empty n : wf (empty_cells n).
+Proof. unfold wf, empty_cells. induction n; cbn; constructor; cbn; auto. Qed.
+Lemma wf_of_dense l : wf (of_dense l).
+Proof. unfold wf, of_dense. induction l; cbn; constructor; auto using wfc_nz. Qed.
+Lemma wf_cells_of_bits b : wf (cells_of_bits b).
+Proof. unfold wf, cells_of_bits. induction b as [|[|] b IH]; cbn; constructor; cbn; auto. lra. Qed.
+Lemma wf_map (f : cell -> cell) a : (forall x, wfc x -> wfc (f x)) -> wf a -> wf (map f a).
+Proof. intros Hf H. unfold wf in *. induction H; cbn; constructor; auto. Qed.
+Lemma wf_map_any {A} (f : A -> cell) (l : list A) : (forall x, wfc (f x)) -> wf (map f l).
+Proof. intros Hf. unfold wf. induction l; cbn; constructor; auto. Qed.
+Lemma wf_map2 (f : cell -> cell -> cell) a b :
+  (forall x y, wfc x -> wfc y -> wfc (f x y)) -> wf a -> wf b -> wf (map2 f a b).
+Proof.
+  intros Hf Ha. revert b. unfold wf in *. induction Ha as [|x a Hx Ha IH]; intros [|y b] Hb; cbn; try constructor.
+  - inversion Hb; subst. auto.
+  - inversion Hb; subst. auto.
+Qed.
+Lemma wf_map2_arr {B} (f : cell -> B -> cell) a (b : list B) :
+  (forall x y, wfc x -> wfc (f x y)) -> wf a -> wf (map2 f a b).
+Proof.
+  intros Hf Ha. revert b. unfold wf in *. induction Ha as [|x a Hx Ha IH]; intros [|y b]; cbn; constructor; auto.
+Qed.
+Lemma wf_mapM {A} (f : A -> res cell) (l : list A) r :
+  (forall x c, f x = Ok c -> wfc c) -> mapM f l = Ok r -> wf r.
+Proof.
+  intros Hf. revert r. unfold wf. induction l as [|x l IH]; cbn; intros r H.
+  - inversion H. constructor.
+  - destruct (f x) eqn:E; try discriminate. destruct (mapM f l) eqn:E2; try discriminate.
+    inversion H; subst. constructor; eauto.
+Qed.
+Lemma wf_mapM_in (f : cell -> res cell) (l : cells) r :
+  (forall x c, wfc x -> f x = Ok c -> wfc c) -> wf l -> mapM f l = Ok r -> wf r.
+Proof.
+  intros Hf Hl. revert r. unfold wf in *. induction Hl as [|x l Hx Hl IH]; cbn; intros r H.
+  - inversion H. constructor.
+  - destruct (f x) eqn:E; try discriminate. destruct (mapM f l) eqn:E2; try discriminate.
+    inversion H; subst. constructor; eauto.
+Qed.
+Lemma wf_map2M (f : cell -> cell -> res cell) a b r :
+  (forall x y c, wfc x -> wfc y -> f x y = Ok c -> wfc c) -> wf a -> wf b -> map2M f a b = Ok r -> wf r.
+Proof.
+  intros Hf Ha. revert b r. unfold wf in *. induction Ha as [|x a Hx Ha IH]; intros [|y b] r Hb H; cbn in H;
+    try (inversion H; constructor).
+  inversion Hb; subst.
+  destruct (f x y) eqn:E; try discriminate. destruct (map2M f a b) eqn:E2; try discriminate.
+  inversion H; subst. constructor; eauto.
+Qed.
+Lemma wf_map2M_arr {B} (f : cell -> B -> res cell) a (b : list B) r :
+  (forall x y c, wfc x -> f x y = Ok c -> wfc c) -> wf a -> map2M f a b = Ok r -> wf r.
+Proof.
+  intros Hf Ha. revert b r. unfold wf in *. induction Ha as [|x a Hx Ha IH]; intros [|y b] r H; cbn in H;
+    try (inversion H; constructor).
+  destruct (f x y) eqn:E; try discriminate. destruct (map2M f a b) eqn:E2; try discriminate.
+  inversion H; subst. constructor; eauto.
+Qed.
+Lemma wf_hd a : wf a -> wfc (hd None a).
+Proof. intros H. destruct H; cbn; auto. Qed.
+Lemma wfc_join (o : option cell) (b : cells) : wf b -> hd_error b = o -> wfc (join_cell o).
+Proof. intros H E. destruct H; cbn in E; subst; cbn; auto. Qed.
+
+(* cell-level tactic: case analysis on the cells, on the zero tests, then arithmetic *)
+Ltac nzt :=
+  repeat match goal with
+         | H : wfc (Some _) |- _ => cbn in H
+         | |- wfc (nz _) => apply wfc_nz
+         | |- wfc None => exact I
+         | |- wfc (Some _) => cbn
+         | |- ~ _ * _ == 0 => apply qmul_nz
+         | |- ~ _ / _ == 0 => apply qdiv_nz
+         | |- ~ - _ == 0 => apply qopp_nz
+         | |- ~ Qabs _ == 0 => apply qabs_nz
+         end; auto.
+Ltac cellwf :=
+  intros;
+  repeat match goal with c : cell |- _ => destruct c end;
+  cbn in *; nzt;
+  repeat match goal with
+         | |- context [qzerob ?q] => let E := fresh "E" in destruct (qzerob q) eqn:E; cbn
+         end; nzt;
+  try match goal with E : qzerob _ = false |- ~ _ == 0 => now apply qzerob_false end.
+
+(* ------------------------------------------------------------------ arithmetic kernels keep the invariant *)
+Lemma dispatch_sparse_wf (same : cells -> cells -> res cells) self1 other1 a b r :
+  wf a -> wf b ->
+  (forall r, same a b = Ok r -> wf r) ->
+  (forall v r, wfc v -> self1 v b = Ok r -> wf r) ->
+  (forall o r, wfc (join_cell o) -> other1 a o = Ok r -> wf r) ->
+  dispatch_sparse same self1 other1 a b = Ok r -> wf r.
+Proof.
+  intros Ha Hb H1 H2 H3. unfold dispatch_sparse.
+  destruct (Nat.eqb (length a) (length b)); [apply H1|].
+  destruct (len1 a && negb (len0 b)); [apply H2; now apply wf_hd|].
+  destruct (len1 b); [|discriminate].
+  apply H3. eapply wfc_join; eauto.
+Qed.
+Lemma dispatch_array_wf {B} (same : cells -> list B -> res cells) self1 a (b : list B) r :
+  wf a ->
+  (forall r, same a b = Ok r -> wf r) ->
+  (forall v r, wfc v -> self1 v b = Ok r -> wf r) ->
+  dispatch_array same self1 a b = Ok r -> wf r.
+Proof.
+  intros Ha H1 H2. unfold dispatch_array.
+  destruct (Nat.eqb (length a) (length b)); [apply H1|].
+  destruct (len1 a && negb (len0 b)); [apply H2; now apply wf_hd|discriminate].
+Qed.
+Ltac okinv := match goal with H : Ok _ = Ok _ |- _ => inversion H; subst; clear H end.
+
+Lemma add_other1_wf a o : wf a -> wfc o -> wf (add_other1 a o).
+Proof. intros Ha Ho. destruct o; cbn; auto. apply wf_map; auto. cellwf. Qed.
+Lemma add_sparse_wf a b r : wf a -> wf b -> add_sparse a b = Ok r -> wf r.
+Proof.
+  intros Ha Hb. apply dispatch_sparse_wf; auto; intros; okinv.
+  - apply wf_map2; auto. unfold add_same_c. cellwf.
+  - destruct v; cbn; auto. apply wf_map; auto. cellwf.
+  - now apply add_other1_wf.
+Qed.
+Lemma add_scalar_wf a k r : wf a -> add_scalar a k = Ok r -> wf r.
+Proof.
+  intros Ha H. unfold add_scalar in H. okinv. destruct (qzerob k) eqn:E; auto.
+  apply (add_other1_wf a (Some k)); auto. cbn. now apply qzerob_false.
+Qed.
+Lemma add_array_wf a b r : wf a -> add_array a b = Ok r -> wf r.
+Proof.
+  intros Ha. apply dispatch_array_wf; auto; intros; okinv.
+  - apply wf_map2_arr; auto. unfold add_arr_c. cellwf.
+  - destruct v; cbn; apply wf_map_any; intros; apply wfc_nz.
+Qed.
+
+Lemma sub_other1_wf a o : wf a -> wfc o -> wf (sub_other1 a o).
+Proof. intros Ha Ho. destruct o; cbn; auto. apply wf_map; auto. cellwf. Qed.
+Lemma sub_sparse_wf a b r : wf a -> wf b -> sub_sparse a b = Ok r -> wf r.
+Proof.
+  intros Ha Hb. apply dispatch_sparse_wf; auto; intros; okinv.
+  - apply wf_map2; auto. unfold sub_same_c. cellwf.
+  - destruct v; cbn; apply wf_map; auto; cellwf.
+  - now apply sub_other1_wf.
+Qed.
+Lemma sub_scalar_wf a k r : wf a -> sub_scalar a k = Ok r -> wf r.
+Proof.
+  intros Ha H. unfold sub_scalar in H. okinv. destruct (qzerob k) eqn:E; auto.
+  apply (sub_other1_wf a (Some k)); auto. cbn. now apply qzerob_false.
+Qed.
+Lemma sub_array_wf a b r : wf a -> sub_array a b = Ok r -> wf r.
+Proof.
+  intros Ha. apply dispatch_array_wf; auto; intros; okinv.
+  - apply wf_map2_arr; auto. unfold sub_arr_c. cellwf.
+  - destruct v; cbn; apply wf_map_any; intros; cellwf.
+Qed.
+
+Lemma mul_sparse_wf a b r : wf a -> wf b -> mul_sparse a b = Ok r -> wf r.
+Proof.
+  intros Ha Hb. apply dispatch_sparse_wf; auto; intros; okinv.
+  - apply wf_map2; auto. unfold mul_same_c. cellwf.
+  - destruct v; cbn; [apply wf_map; auto; cellwf | apply wf_empty].
+  - unfold mul_other1. destruct (join_cell o); cbn; [apply wf_map; auto; cellwf | apply wf_empty].
+Qed.
+Lemma mul_scalar_wf a k r : wf a -> mul_scalar a k = Ok r -> wf r.
+Proof.
+  intros Ha H. unfold mul_scalar in H. okinv. destruct (qzerob k) eqn:E; [apply wf_empty|].
+  apply qzerob_false in E. apply wf_map; auto. cellwf.
+Qed.
+Lemma mul_array_wf a b r : wf a -> mul_array a b = Ok r -> wf r.
+Proof.
+  intros Ha. apply dispatch_array_wf; auto; intros; okinv.
+  - apply wf_map2_arr; auto. unfold mul_arr_c. cellwf.
+  - destruct v; cbn; [apply wf_map_any; intros; cellwf | apply wf_empty].
+Qed.
+
+Lemma qdiv_ok v w q : qdiv v w = Ok q -> ~ w == 0 /\ q = v / w.
+Proof. unfold qdiv. destruct (qzerob w) eqn:E; intros H; inversion H. split; auto. now apply qzerob_false. Qed.
+Lemma div_c_wf x y c : wfc x -> div_c x y = Ok c -> wfc c.
+Proof.
+  destruct x as [v|]; cbn; intros Hx H; [|inversion H; exact I].
+  destruct (qdiv v y) eqn:E; cbn in H; inversion H; subst. apply qdiv_ok in E as [Hy ->]. cbn. now apply qdiv_nz.
+Qed.
+Lemma truediv_scalar_wf a k r : wf a -> truediv_scalar a k = Ok r -> wf r.
+Proof. intros Ha. apply wf_mapM_in; auto. intros x c Hx. now apply div_c_wf. Qed.
+Lemma truediv_same_c_wf x y c : wfc x -> wfc y -> truediv_same_c x y = Ok c -> wfc c.
+Proof.
+  destruct x as [v|], y as [w|]; cbn; intros Hx Hy H; try discriminate; try (inversion H; exact I).
+  destruct (qdiv v w) eqn:E; cbn in H; inversion H; subst. apply qdiv_ok in E as [Hw ->]. cbn. now apply qdiv_nz.
+Qed.
+Lemma truediv_sparse_wf a b r : wf a -> wf b -> truediv_sparse a b = Ok r -> wf r.
+Proof.
+  intros Ha Hb. apply dispatch_sparse_wf; auto.
+  - intros r0. apply wf_map2M; auto. intros x y c. apply truediv_same_c_wf.
+  - intros v r0 Hv. unfold truediv_self1. destruct v as [value|]; [|intros H; okinv; apply wf_empty].
+    destruct (Nat.eqb (nkeys b) (length b)); [|discriminate].
+    apply wf_mapM. intros x c. now apply div_c_wf.
+  - intros o r0 Ho. unfold truediv_other1. destruct (join_cell o) as [other|].
+    + apply wf_mapM_in; auto. intros x c Hx. now apply div_c_wf.
+    + destruct (Nat.eqb (nkeys a) 0); intros H; inversion H; subst; auto.
+Qed.
+Lemma truediv_array_wf a b r : wf a -> truediv_array a b = Ok r -> wf r.
+Proof.
+  intros Ha. apply dispatch_array_wf; auto.
+  - intros r0. apply wf_map2M_arr; auto. intros x y c. apply div_c_wf.
+  - intros v r0 Hv. unfold truediv_arr_self1. destruct v as [value|]; [|intros H; okinv; apply wf_empty].
+    apply wf_mapM. intros x c. now apply div_c_wf.
+Qed.
+
+Lemma neg_cells_wf a : wf a -> wf (neg_cells a).
+Proof. intros. apply wf_map; auto. cellwf. Qed.
+Lemma abs_cells_wf a : wf a -> wf (abs_cells a).
+Proof. intros. apply wf_map; auto. cellwf. Qed.
+Lemma rtruediv_scalar_wf a k r : wf a -> rtruediv_scalar a k = Ok r -> wf r.
+Proof.
+  intros Ha. unfold rtruediv_scalar. destruct (qzerob k) eqn:E; [intros H; okinv; apply wf_empty|].
+  apply qzerob_false in E. destruct (Nat.eqb (nkeys a) (length a)); [|discriminate].
+  apply wf_mapM. intros x c H. destruct (qdiv k (dcell x)) eqn:D; cbn in H; inversion H; subst.
+  apply qdiv_ok in D as [Hx ->]. cbn. now apply qdiv_nz.
+Qed.
+Lemma rsub_scalar_wf a k r : wf a -> rsub_scalar a k = Ok r -> wf r.
+Proof. intros Ha. unfold rsub_scalar. apply add_scalar_wf. now apply neg_cells_wf. Qed.
+
+Lemma k_sparse_wf o a b r : wf a -> wf b -> k_sparse false o a b = Ok r -> wf r.
+Proof. destruct o; cbn; eauto using add_sparse_wf, sub_sparse_wf, mul_sparse_wf, truediv_sparse_wf. Qed.
+Lemma k_scalar_wf o a k r : wf a -> k_scalar o a k = Ok r -> wf r.
+Proof. destruct o; cbn; eauto using add_scalar_wf, sub_scalar_wf, mul_scalar_wf, truediv_scalar_wf. Qed.
+Lemma k_array_wf o a b r : wf a -> k_array o a b = Ok r -> wf r.
+Proof. destruct o; cbn; eauto using add_array_wf, sub_array_wf, mul_array_wf, truediv_array_wf. Qed.
+Lemma ik_sparse_wf o al a b r : wf a -> wf b -> ik_sparse false o al a b = Ok r -> wf r.
+Proof.
+  intros Ha Hb. unfold ik_sparse. destruct al.
+  - destruct o; cbn; unfold iadd_self, isub_self_fixed, imul_self, itruediv_self;
+      eauto using add_sparse_wf, sub_sparse_wf, mul_sparse_wf, truediv_sparse_wf.
+  - destruct o; cbn; eauto using add_sparse_wf, sub_sparse_wf, mul_sparse_wf, truediv_sparse_wf.
+Qed.
+
+(* ------------------------------------------------------------------ Part 2: every operation of the store keeps the invariant *)
+Lemma mapM_Forall {A B} (P : A -> Prop) (Q : B -> Prop) (f : A -> res B) l r :
+  (forall x y, P x -> f x = Ok y -> Q y) -> Forall P l -> mapM f l = Ok r -> Forall Q r.
+Proof.
+  intros Hf Hl. revert r. induction Hl as [|x l Hx Hl IH]; cbn; intros r H.
+  - inversion H. constructor.
+  - destruct (f x) eqn:E; try discriminate. destruct (mapM f l) eqn:E2; try discriminate.
+    inversion H; subst. constructor; eauto.
+Qed.
+Lemma map2M_Forall {A B C} (P : A -> Prop) (P' : B -> Prop) (Q : C -> Prop) (f : A -> B -> res C) a b r :
+  (forall x y z, P x -> P' y -> f x y = Ok z -> Q z) -> Forall P a -> Forall P' b -> map2M f a b = Ok r -> Forall Q r.
+Proof.
+  intros Hf Ha. revert b r. induction Ha as [|x a Hx Ha IH]; intros [|y b] r Hb H; cbn in H;
+    try (inversion H; constructor).
+  inversion Hb; subst.
+  destruct (f x y) eqn:E; try discriminate. destruct (map2M f a b) eqn:E2; try discriminate.
+  inversion H; subst. constructor; eauto.
+Qed.
+Lemma Forall_True {A} (l : list A) : Forall (fun _ => True) l.
+Proof. induction l; constructor; auto. Qed.
+Lemma Forall_upd {A} (P : A -> Prop) l i x : Forall P l -> P x -> Forall P (upd l i x).
+Proof.
+  intros Hl Hx. revert i. induction Hl as [|h t Hh Ht IH]; intros [|i]; cbn; constructor; auto.
+Qed.
+Lemma Forall_nth_error {A} (P : A -> Prop) l i x : Forall P l -> nth_error l i = Some x -> P x.
+Proof. intros Hl H. eapply Forall_forall; eauto. eapply nth_error_In; eauto. Qed.
+Lemma Forall_nth {A} (P : A -> Prop) l i d : Forall P l -> P d -> P (nth i l d).
+Proof. intros Hl Hd. revert i. induction Hl; intros [|i]; cbn; auto. Qed.
+
+Lemma okF_inv x r : okF x = Ok r -> exists c, x = Ok c /\ r = VF c.
+Proof. destruct x; cbn; intros H; inversion H; eauto. Qed.
+Lemma okB_inv x r : okB x = Ok r -> exists b, r = VB b.
+Proof. destruct x; cbn; intros H; inversion H; eauto. Qed.
+Ltac vinv :=
+  repeat match goal with
+         | H : okF _ = Ok _ |- _ => apply okF_inv in H as (? & ? & ->)
+         | H : okB _ = Ok _ |- _ => apply okB_inv in H as (? & ->)
+         | H : Ok _ = Ok _ |- _ => inversion H; subst; clear H
+         | H : Err _ = Ok _ |- _ => discriminate H
+         | H : unsupported = Ok _ |- _ => discriminate H
+         end.
+
+Lemma vec_bin_wf o self p r : vwf self -> pwf p -> vec_bin false o self p = Ok r -> vwf r.
+Proof.
+  intros Hs Hp H. destruct self as [c|b]; cbn in Hs.
+  - destruct o as [a|m|lo], p; cbn in H; vinv; cbn; auto;
+      eauto using k_sparse_wf, k_scalar_wf, k_array_wf, wf_cells_of_bits.
+  - pose proof (wf_cells_of_bits b) as Hb.
+    destruct o as [a|m|lo]; [destruct a| |]; destruct p; cbn in H;
+      repeat match type of H with
+             | context [if ?x then _ else _] => destruct x
+             | context [match ?l with [] => _ | _ => _ end] => destruct l
+             end; vinv; cbn; auto;
+      eauto using k_sparse_wf, k_scalar_wf, k_array_wf, wf_cells_of_bits.
+Qed.
+Lemma vec_ibin_wf o al self p r : vwf self -> pwf p -> vec_ibin false o al self p = Ok r -> vwf r.
+Proof.
+  intros Hs Hp H. destruct self as [c|b]; cbn in Hs.
+  - destruct o as [a|m|lo], p; cbn in H; vinv; cbn; auto;
+      eauto using ik_sparse_wf, k_scalar_wf, k_array_wf, wf_cells_of_bits.
+  - destruct o as [a|m|lo]; [destruct a| |]; destruct p; cbn in H;
+      repeat match type of H with
+             | context [if ?x then _ else _] => destruct x
+             end; vinv; cbn; auto.
+Qed.
+
+Lemma all_F_wf l r : Forall vwf l -> all_F l = Some r -> Forall wf r.
+Proof.
+  intros Hl. revert r. induction Hl as [|x l Hx Hl IH]; cbn; intros r H.
+  - inversion H. constructor.
+  - destruct x; try discriminate. destruct (all_F l); cbn in H; inversion H; subst. constructor; auto.
+Qed.
+Lemma obj_of_rows_wf l o : Forall vwf l -> obj_of_rows l = Ok o -> owf o.
+Proof.
+  intros Hl H. unfold obj_of_rows in H. destruct (all_F l) eqn:E.
+  - inversion H; subst. cbn. eapply all_F_wf; eauto.
+  - destruct (all_B l); inversion H; subst. exact I.
+Qed.
+Lemma obj_of_vec_wf v : vwf v -> owf (obj_of_vec v).
+Proof. destruct v; cbn; auto. Qed.
+Lemma rows_of_wf o : owf o -> Forall vwf (rows_of o).
+Proof.
+  destruct o; cbn; intros H; try (repeat constructor; auto; fail).
+  - induction H; cbn; constructor; auto.
+  - induction rows; cbn; constructor; cbn; auto.
+Qed.
+Lemma map_PV_pwf r : Forall wf r -> Forall pwf (map PV r).
+Proof. intros H. induction H; cbn; constructor; auto. Qed.
+Lemma map_PL_pwf r : Forall pwf (map PL r).
+Proof. induction r; cbn; constructor; cbn; auto. Qed.
+
+Lemma vector_bin_wf o self p r : vwf self -> pwf p -> vector_bin false o self p = Ok r -> owf r.
+Proof.
+  intros Hs Hp H. unfold vector_bin in H.
+  set (self' := match self, o with VB b, BA Sub => VF (cells_of_bits b) | _, _ => self end) in *.
+  assert (Hs' : vwf self').
+  { subst self'. destruct self; auto. destruct o as [[]| |]; auto; apply wf_cells_of_bits. }
+  destruct p; cbn in H.
+  1,2,5,6: destruct (vec_bin false o self' _) eqn:E; cbn in H; inversion H; subst;
+           apply obj_of_vec_wf; eapply vec_bin_wf; eauto.
+  - destruct (mapM _ rows) eqn:E; cbn in H; try discriminate.
+    eapply obj_of_rows_wf; eauto. eapply mapM_Forall; [|exact Hp|exact E].
+    intros x y Hx Hy. cbn in Hy. eapply vec_bin_wf; eauto.
+  - destruct (mapM _ rows) eqn:E; cbn in H; try discriminate.
+    eapply obj_of_rows_wf; eauto. eapply mapM_Forall; [|apply Forall_True|exact E].
+    intros x y _ Hy. cbn in Hy. eapply vec_bin_wf; eauto. exact I.
+  - destruct (mapM _ m) eqn:E; cbn in H; try discriminate.
+    eapply obj_of_rows_wf; eauto. eapply mapM_Forall; [|apply Forall_True|exact E].
+    intros x y _ Hy. cbn in Hy. eapply vec_bin_wf; eauto. exact I.
+Qed.
+
+Lemma array_bin_go_wf o rows others r :
+  Forall vwf rows -> Forall pwf others ->
+  match rows, others with
+  | [row], _ => do l <- mapM (fun x => vec_bin false o row x) others; obj_of_rows l
+  | _, [x] => do l <- mapM (fun r => vec_bin false o r x) rows; obj_of_rows l
+  | _, _ => do l <- map2M (fun r x => vec_bin false o r x) rows others; obj_of_rows l
+  end = Ok r -> owf r.
+Proof.
+  intros Hr Ho H.
+  assert (G1 : forall row l, vwf row -> mapM (fun x => vec_bin false o row x) others = Ok l -> Forall vwf l).
+  { intros row l Hrow. eapply mapM_Forall; [|exact Ho]. intros x y Hx Hy. eapply vec_bin_wf; eauto. }
+  assert (G2 : forall x l, pwf x -> mapM (fun r => vec_bin false o r x) rows = Ok l -> Forall vwf l).
+  { intros x l Hx. eapply mapM_Forall; [|exact Hr]. intros r0 y Hr0 Hy. eapply vec_bin_wf; eauto. }
+  assert (G3 : forall l, map2M (fun r x => vec_bin false o r x) rows others = Ok l -> Forall vwf l).
+  { intros l. eapply map2M_Forall; [|exact Hr|exact Ho]. intros x y z Hx Hy Hz. eapply vec_bin_wf; eauto. }
+  destruct rows as [|row [|row2 rows]].
+  - destruct others as [|x [|x2 others]];
+      match type of H with (do l <- ?m; _) = _ => destruct m eqn:E; cbn in H; try discriminate end;
+      eapply obj_of_rows_wf; eauto. inversion Ho; subst. eapply G2; eauto.
+  - match type of H with (do l <- ?m; _) = _ => destruct m eqn:E; cbn in H; try discriminate end.
+    eapply obj_of_rows_wf; eauto. inversion Hr; subst. eapply G1; eauto.
+  - destruct others as [|x [|x2 others]];
+      match type of H with (do l <- ?m; _) = _ => destruct m eqn:E; cbn in H; try discriminate end;
+      eapply obj_of_rows_wf; eauto. inversion Ho; subst. eapply G2; eauto.
+Qed.
+Lemma array_bin_wf o rows p r : Forall vwf rows -> pwf p -> array_bin false o rows p = Ok r -> owf r.
+Proof.
+  intros Hr Hp H. unfold array_bin in H. destruct p.
+  1,2,5,6: match type of H with (do l <- ?m; _) = _ => destruct m eqn:E; cbn in H; try discriminate end;
+           eapply obj_of_rows_wf; eauto; (eapply mapM_Forall; [|exact Hr|exact E]);
+           intros x y Hx Hy; eapply vec_bin_wf; eauto.
+  - eapply array_bin_go_wf; eauto. now apply map_PV_pwf.
+  - eapply array_bin_go_wf; eauto. apply map_PL_pwf.
+  - match type of H with (do l <- ?m; _) = _ => destruct m eqn:E; cbn in H; try discriminate end.
+    eapply obj_of_rows_wf; eauto. eapply map2M_Forall; [|exact Hr|apply (Forall_True m)|exact E].
+    intros x y z Hx _ Hz. cbn in Hz. eapply vec_bin_wf; eauto. exact I.
+Qed.
+Lemma array_ibin_wf o al rows p l : Forall vwf rows -> pwf p -> array_ibin false o al rows p = Ok l -> Forall vwf l.
+Proof.
+  intros Hr Hp H. unfold array_ibin in H.
+  assert (G : forall al x l, pwf x -> mapM (fun row => vec_ibin false o al row x) rows = Ok l -> Forall vwf l).
+  { intros al0 x l0 Hx. eapply mapM_Forall; [|exact Hr]. intros r0 y Hr0 Hy. eapply vec_ibin_wf; eauto. }
+  destruct p; try (eapply G; eauto; fail).
+  - destruct (negb (is_float_rows rows)); try discriminate. eapply G; eauto.
+  - destruct (negb (is_float_rows rows)); try discriminate.
+    destruct rows0 as [|x [|x2 rows0]].
+    + eapply map2M_Forall; [|exact Hr|apply (Forall_True [])|exact H]. intros; eapply vec_ibin_wf; eauto.
+    + inversion Hp; subst. eapply (G al (PV x)); eauto.
+    + eapply map2M_Forall; [|exact Hr|exact Hp|exact H]. intros x0 y z Hx Hy Hz. eapply vec_ibin_wf; eauto.
+  - destruct rows0 as [|x [|x2 rows0]].
+    + eapply map2M_Forall; [|exact Hr|apply (Forall_True [])|exact H]. intros; eapply vec_ibin_wf; eauto.
+    + eapply (G al (PL x)); eauto. exact I.
+    + eapply map2M_Forall; [|exact Hr|apply (Forall_True (x :: x2 :: rows0))|exact H].
+      intros x0 y z Hx _ Hz. eapply vec_ibin_wf; eauto. exact I.
+  - eapply map2M_Forall; [|exact Hr|apply (Forall_True m)|exact H].
+    intros x0 y z Hx _ Hz. eapply vec_ibin_wf; eauto. exact I.
+Qed.
